@@ -93,7 +93,7 @@ impl GreFrame {
 
     pub fn seq(self, seq: u32) -> Self {
         if let Some(shdr) = self.seq {
-            shdr.get(&self.pkt).seq(seq);
+            shdr.mutate(&self.pkt, |hdr| hdr.seq = seq.to_be());
         };
         self
     }
